@@ -1,4 +1,5 @@
-(* EvalFragment3.v — C01: closures as values, run-time part.
+(* EvalFragment4.v — C01: fragment 4 (closures as values, lambda bodies of SEVERAL expressions),
+   run-time part; a port of EvalFragment3.v.
    exec4_lam (a lambda expression evaluates to a closure whose captured slots point to the slots
    of the enclosing activation environments), callee_run4 (from ENTER of a closure to the state
    after its RET, or after the RET of the frame a tail call put in its place), exec4_app_closure
@@ -159,6 +160,38 @@ Definition body_ok (sc : list text) (lv : list rval4) (rho : env4) (body : expr4
     compile_expression f l tail (cell_of4 body) s = ROk l' s' -> fwd l' = fwd l ++ code ->
     exec4 ob s' (len (fwd l)) code tail lv rho r rho'.
 
+(* ... and for the SEQUENCE of body expressions of a closure, as the body loop compiles it (the
+   last expression in tail position): the code of the sequence computes the value r of the last
+   expression, in the sense of exec4 for tail code *)
+Definition seq_ok (sc : list text) (lv : list rval4) (rho : env4) (bodies : list expr4) (r : rval4) (rho' : env4) : Prop :=
+  forall f l s l' s' code, Forall (fun b => wf4 b sc) bodies -> (cell_size (cells_of4 bodies) < f)%nat ->
+    hdr4 l sc s -> minv s ->
+    compile_bodies f l (map cell_of4 bodies) s = ROk l' s' -> fwd l' = fwd l ++ code ->
+    exec4 ob s' (len (fwd l)) code true lv rho r rho'.
+
+(* code for effect (non-tail: the frame, the stack up to %sp, %ep and the existing environments are
+   as before, so the local environment relation and the frame of the activation still hold; the
+   value in %acc is dropped), followed by tail code *)
+Lemma exec4_seq s0 p cx cr lv rho r1 rho1 r rho2 :
+  exec4 ob s0 p cx false lv rho r1 rho1 -> exec4 ob s0 (p + len cx) cr true lv rho1 r rho2 ->
+  exec4 ob s0 p (cx ++ cr) true lv rho r rho2.
+Proof.
+  intros EX1 EX2 m lp bc X MI Hc Hs Hip G L Ht.
+  apply seg_app in Hs as [Hs1 Hs2].
+  destruct (exec4_n ob _ _ _ _ _ _ _ EX1 m lp bc X MI Hc Hs1 Hip G L) as (n1 & m1 & St1 & Fr1 & MI1 & Hip1 & V1 & G1).
+  pose proof (f2_frame _ _ Fr1) as Fr1'.
+  pose proof (code_in_ext _ _ _ _ Hc (fr_ext _ _ Fr1')) as Hc1.
+  assert (X1 : cext s0 m1) by (eapply cext_trans; [exact X|apply Fr1']).
+  assert (L1 : lrel4 lv m1) by (eapply lrel4_frame2; eassumption).
+  assert (Ht1 : true = true -> tframe m1) by (intros E; eapply tframe_frame2; [exact Fr1|auto]).
+  destruct (EX2 m1 lp bc X1 MI1 Hc1 Hs2 Hip1 G1 L1 Ht1) as [(n2 & m2 & St2 & Fr2 & MI2 & Hip2 & V2 & G2)|[_ Hr]].
+  - left. exists (n1 + n2)%nat, m2. split; [eapply steps_trans; eassumption|].
+    split; [eapply frame2_trans; eassumption|]. split; [exact MI2|].
+    split; [rewrite Hip2; f_equal; lens; lia|]. split; assumption.
+  - right. split; [reflexivity|]. destruct (Ht eq_refl) as (k & e & i & b & _ & Hsp).
+    eapply ok_t4_pre; eassumption.
+Qed.
+
 Lemma Forall2_vrep4_ext m m' vs rs : rext m m' -> Forall2 (fun v r => vrep4 m v r) vs rs ->
   Forall2 (fun v r => vrep4 m' v r) vs rs.
 Proof. intros R H. induction H; constructor; [eapply vrep4_ext; eassumption|assumption]. Qed.
@@ -167,7 +200,7 @@ Proof. intros R H. induction H; constructor; [eapply vrep4_ext; eassumption|assu
    the return information (e, l0, i0) to the state after its RET — or after the RET of a frame
    that a tail call of the body put in its place *)
 Lemma callee_run4 ps cs body cvals n B e l0 i0 vs rs rho1 r rho2 m5 lamp :
-  body_ok (ps ++ cs) (rs ++ cvals) rho1 body r rho2 ->
+  seq_ok (ps ++ cs) (rs ++ cvals) rho1 body r rho2 ->
   minv m5 -> vrep4 m5 (acc m5) (R4Clo ps cs body cvals) ->
   (exists cp cep, acc m5 = VPtr cp /\ heap_get (hp m5) cp = Ok (VClosure lamp cep)) -> ip m5 = (lamp, 0) ->
   length rs = length ps -> n = len ps ->
@@ -187,8 +220,8 @@ Proof.
   assert (Hcp : heap_get (hp m5) cp = Ok (VClosure lamp' cep)) by (rewrite (heap_get_alloc _ _ Acp), Ccp; reflexivity).
   assert (lamp' = lamp /\ cep0 = cep) as [-> ->] by (split; congruence).
   assert (Hcep : heap_get (hp m5) cep = Ok (VLexEnv ceid)) by (rewrite (heap_get_alloc _ _ Acep), Ccep; reflexivity).
-  destruct CC as (lam & caps & cb & f & lam2 & s0 & lam3 & s0' & Hlam & Hem & Fa & Hce & Lcaps & Hbc & Hf & Wb & Hh2 & MI0 & Ecomp & F2 & F3 & XB).
-  pose proof (IHb f lam2 true s0 lam3 s0' cb Wb Hf Hh2 MI0 Ecomp F3) as EXb.
+  destruct CC as (lam & caps & cb & f & lam2 & s0 & lam3 & s0' & Hlam & Hem & Fa & Hce & Lcaps & Hbc & Hne & Hf & Wb & Hh2 & MI0 & Ecomp & F2 & F3 & XB).
+  pose proof (IHb f lam2 s0 lam3 s0' cb Wb Hf Hh2 MI0 Ecomp F3) as EXb.
   rewrite F2 in EXb. change (len [VOp OEnter]) with 1 in EXb.
   pose proof (lam_in_code _ _ _ Hlam) as Hc5. rewrite Hbc in Hc5.
   destruct Hlam as (lid & Al & Cl & Ltl & Tl).
@@ -275,7 +308,7 @@ Lemma exec4_app_closure s0 p ca cf n (tail : bool) lv rho rs rho1 ps cs body cva
   exec_args4 ob s0 p ca n lv rho rs rho1 ->
   exec4 ob s0 (p + len ca + 2) cf false lv rho1 (R4Clo ps cs body cvals) rho2 ->
   length rs = length ps -> n = len ps ->
-  body_ok (ps ++ cs) (rs ++ cvals) rho2 body r rho3 ->
+  seq_ok (ps ++ cs) (rs ++ cvals) rho2 body r rho3 ->
   exec4 ob s0 p (ca ++ [VOp OPushImmediate; VArgc n] ++ cf ++ [VOp (if tail then OTCallAcc else OCallAcc)])
         tail lv rho r rho3.
 Proof.
@@ -576,9 +609,9 @@ Lemma dyn_lam sc lv rho ps fs body cvals :
   body_ok sc lv rho (ZLam ps fs body) (R4Clo ps (capnames sc fs) body cvals) rho.
 Proof.
   intros Fv f l tail s l' s' code Hwf Hf Hh MI Hcomp Hfwd.
-  pose proof Hwf as Hwf'. cbn [wf4] in Hwf'. destruct Hwf' as (_ & _ & _ & _ & Wb).
+  pose proof Hwf as Hwf'. apply wf4_lam in Hwf'. destruct Hwf' as (Hne & _ & _ & _ & _ & Wb).
   cbn [cell_of4] in *.
-  destruct (lam_static4 sc ps fs body Hwf (static4 body _ Wb) f l tail s Hf Hh MI)
+  destruct (lam_static4 sc ps fs body Hwf (statics _ body Wb) f l tail s Hf Hh MI)
     as (l2 & s2 & lamp & lamF & caps & cb & f' & lam2 & s3 & lam3 & s4 & E & F & _ & MI2 & X2 & _ & _ &
         Hlam & Hem & Fa & Fc & Hbc & Hf' & Hh2 & MI3 & Ecomp & F2 & F3 & X4).
   rewrite E in Hcomp. injection Hcomp as <- <-.
@@ -588,7 +621,7 @@ Proof.
   split; [exact Hlam|]. split; [exact Hem|]. split; [exact Fa|].
   split.
   { clear -Fc. induction Fc as [|e x caps cs (_ & k & Hk & _) _ IH]; constructor; [exists k; exact Hk|exact IH]. }
-  split; [eapply Forall2_length; exact Fc|]. split; [exact Hbc|]. split; [exact Hf'|]. split; [exact Wb|].
+  split; [eapply Forall2_length; exact Fc|]. split; [exact Hbc|]. split; [exact Hne|]. split; [exact Hf'|]. split; [exact Wb|].
   split; [exact Hh2|]. split; [exact MI3|]. split; [exact Ecomp|]. split; [exact F2|]. split; [exact F3|exact X4].
 Qed.
 
@@ -656,6 +689,54 @@ Proof.
     exact H.
 Qed.
 
+(* the body loop: the first expression of a sequence *)
+Lemma compile_bodies_cons f l x r :
+  compile_bodies f l (x :: r) =
+  (dom lam' <- compile_expression f l (match r with [] => true | _ => false end) x; compile_bodies f lam' r).
+Proof. reflexivity. Qed.
+
+Lemma dyn_seq_cons sc lv rho x r rho1 xs rs rho2 :
+  body_ok sc lv rho x r rho1 -> ref_evals4 bsem sc lv rho1 xs rs rho2 ->
+  (forall pre r', rs = pre ++ [r'] -> seq_ok sc lv rho1 xs r' rho2) ->
+  forall pre r', r :: rs = pre ++ [r'] -> seq_ok sc lv rho (x :: xs) r' rho2.
+Proof.
+  intros IHx HR IHr pre r' Hpre f l s l' s' code Wall Hf Hh MI Hcomp Hfwd.
+  inversion Wall as [|x' xs' Wx Wr]; subst x' xs'.
+  destruct (cells4_size x xs) as [Sx Sr].
+  pose proof (ref_evals4_len _ _ _ _ _ _ HR) as Hlen.
+  cbn [map] in Hcomp. rewrite compile_bodies_cons in Hcomp.
+  destruct (static4 x sc Wx f l (match map cell_of4 xs with [] => true | _ => false end) s ltac:(lia) Hh MI)
+    as (l1 & s1 & cx & E1 & F1 & S1 & MI1 & X1 & R1 & _).
+  pose proof (hdr4_same _ _ _ _ S1 (hdr4_ext _ _ _ _ X1 Hh)) as Hh1.
+  destruct (bodies_static4 sc xs (statics sc xs Wr) f l1 s1 ltac:(lia) Hh1 MI1)
+    as (l2 & s2 & cr & E2 & F2 & S2 & MI2 & X2 & R2 & _).
+  unfold bindM at 1 in Hcomp. rewrite E1, E2 in Hcomp. injection Hcomp as <- <-.
+  rewrite F2, F1, <- app_assoc in Hfwd. apply app_inv_head in Hfwd. subst code.
+  destruct xs as [|y ys].
+  - (* x is the last expression: tail position *)
+    inversion HR; subst.
+    destruct pre as [|p0 pre']; [|destruct pre'; cbn [app] in Hpre; congruence].
+    cbn [app] in Hpre. injection Hpre as <-.
+    cbn [map compile_bodies] in E2. unfold ret in E2. injection E2 as <- <-.
+    assert (Hcr : cr = []) by (rewrite <- (app_nil_r (fwd l1)) in F2 at 1; apply app_inv_head in F2; auto).
+    subst cr. rewrite app_nil_r.
+    exact (IHx f l true s l1 s1 cx Wx ltac:(lia) Hh MI E1 F1).
+  - (* x is evaluated for effect, in non-tail position *)
+    destruct rs as [|r1 rs']; [discriminate|].
+    destruct pre as [|p0 pre']; [cbn [app] in Hpre; congruence|].
+    cbn [app] in Hpre. injection Hpre as <- Hrs.
+    apply (exec4_seq s2 _ cx cr lv rho r rho1 r' rho2).
+    + apply (exec4_ext ob s2 s1); [exact X2|]. exact (IHx f l false s l1 s1 cx Wx ltac:(lia) Hh MI E1 F1).
+    + pose proof (IHr pre' r' Hrs f l1 s1 l2 s2 cr Wr ltac:(lia) Hh1 MI1 E2 F2) as H.
+      rewrite F1, len_app in H. exact H.
+Qed.
+
+(* the predicate of the induction for LISTS of expressions: a list is evaluated as the operands of
+   an application (operand loop) or as the body of a closure (body loop) *)
+Definition evals_okP (sc : list text) (lv : list rval4) (rho : env4) (xs : list expr4) (rs : list rval4)
+                     (rho' : env4) : Prop :=
+  args_okP sc lv rho xs rs rho' /\ (forall pre r, rs = pre ++ [r] -> seq_ok sc lv rho xs r rho').
+
 Section Main4.
 Hypothesis Hb : forall b, builtin_ok ob bsem b.
 Hypothesis He : forall b, builtin_envs ob bsem b.
@@ -676,7 +757,7 @@ Qed.
 Lemma dyn_app_closure sc lv rho f0 args rs rho1 ps cs body cvals rho2 r rho3 :
   length rs = length args ->
   args_okP sc lv rho args rs rho1 -> body_ok sc lv rho1 f0 (R4Clo ps cs body cvals) rho2 ->
-  length rs = length ps -> body_ok (ps ++ cs) (rs ++ cvals) rho2 body r rho3 ->
+  length rs = length ps -> seq_ok (ps ++ cs) (rs ++ cvals) rho2 body r rho3 ->
   body_ok sc lv rho (ZApp f0 args) r rho3.
 Proof.
   intros Hla IHa IHf Hlrs IHb f l tail s l' s' code Hwf Hf Hh MI Hcomp Hfwd.
@@ -696,7 +777,7 @@ Qed.
 Theorem compile_correct4 : forall sc lv rho e r rho', ref_eval4 bsem sc lv rho e r rho' ->
   body_ok sc lv rho e r rho'.
 Proof.
-  apply (ref_eval4_min bsem body_ok args_okP).
+  apply (ref_eval4_min bsem body_ok evals_okP).
   - intros sc lv rho c f l tail s l' s' code Hwf. pose proof Hwf as [Hs Hd]. revert f l tail s l' s' code Hwf.
     apply (dyn_datum sc lv rho (ZConst c) c); [intros; apply compile_const_eq; exact Hs|exact Hd].
   - intros sc lv rho d f l tail s l' s' code Hwf. pose proof Hwf as Hd. cbn [wf4] in Hd. revert f l tail s l' s' code Hwf.
@@ -716,11 +797,15 @@ Proof.
     + cbn [cell_of4 cell_size]. lia.
     + intros (_ & Hp & We). split; assumption.
   - intros sc lv rho ps fs body cvals Fv. apply dyn_lam. exact Fv.
-  - intros sc lv rho f0 args rbs rho1 b rho2 r _ IHa _ IHf Hsem. exact (dyn_app_builtin sc lv rho f0 args rbs rho1 b rho2 r IHa IHf Hsem).
-  - intros sc lv rho f0 args rs rho1 ps cs body cvals rho2 r rho3 HRa IHa _ IHf Hlrs _ IHb.
-    exact (dyn_app_closure sc lv rho f0 args rs rho1 ps cs body cvals rho2 r rho3 (ref_evals4_len _ _ _ _ _ _ HRa) IHa IHf Hlrs IHb).
-  - intros sc lv rho. apply dyn_args_nil.
-  - intros sc lv rho x r rho1 xs rs rho2 _ IHx _ IHr. exact (dyn_args_cons sc lv rho x r rho1 xs rs rho2 IHx IHr).
+  - intros sc lv rho f0 args rbs rho1 b rho2 r _ IHa _ IHf Hsem.
+    exact (dyn_app_builtin sc lv rho f0 args rbs rho1 b rho2 r (proj1 IHa) IHf Hsem).
+  - intros sc lv rho f0 args rs rho1 ps cs bodies cvals rho2 vs pre r rho3 HRa IHa _ IHf Hlrs _ IHb Hvs.
+    exact (dyn_app_closure sc lv rho f0 args rs rho1 ps cs bodies cvals rho2 r rho3 (ref_evals4_len _ _ _ _ _ _ HRa)
+             (proj1 IHa) IHf Hlrs (proj2 IHb pre r Hvs)).
+  - intros sc lv rho. split; [apply dyn_args_nil|]. intros pre r H. destruct pre; discriminate.
+  - intros sc lv rho x r rho1 xs rs rho2 _ IHx HRr IHr. split.
+    + exact (dyn_args_cons sc lv rho x r rho1 xs rs rho2 IHx (proj1 IHr)).
+    + exact (dyn_seq_cons sc lv rho x r rho1 xs rs rho2 IHx HRr (proj2 IHr)).
 Qed.
 End Main4.
 
@@ -954,92 +1039,7 @@ Proof.
   apply (genv_rel4_ext rho m); [|reflexivity|exact G]. apply rext_same; try reflexivity; lia.
 Qed.
 
-(* ============================================================ non-vacuity *)
-(* (((lambda (x) (lambda (y) (if y x 'no))) '(1 2)) #t): a closure that captures x escapes from
-   the activation that created it and is applied afterwards *)
-Definition ex4_inner : expr4 := ZIf (ZVar (S_ "y")) (ZVar (S_ "x")) (ZQuote (CSym (S_ "no"))).
-Definition ex4_e : expr4 :=
-  ZApp (ZApp (ZLam [S_ "x"] [] (ZLam [S_ "y"] [S_ "x"] ex4_inner)) [ZQuote ex2_list]) [ZConst (CBool true)].
-
-Ltac in_cases H := repeat (destruct H as [<-|H]; [|]); try contradiction.
-
-Lemma ex4_hypotheses :
-  wf4 ex4_e [] /\ minv (vm_empty 8192) /\ genv_rel4 rho4_empty (vm_empty 8192) /\
-  ref_eval4 bsem_not [] [] rho4_empty ex4_e (R4Base (RDatum ex2_list)) rho4_empty.
-Proof.
-  split.
-  { apply wf4_app. split; [reflexivity|]. split; [|repeat constructor].
-    apply wf4_app. split; [reflexivity|]. split; [|repeat constructor; cbn; tauto].
-    cbn [wf4]. split; [intros x [<-|[]]; reflexivity|]. split; [reflexivity|].
-    split; [vm_compute; reflexivity|]. split.
-    { intros x Hx. cbn in Hx. destruct Hx as [<-|[<-|[]]]; [right; left; reflexivity|left; left; reflexivity]. }
-    split; [intros x [<-|[]]; reflexivity|]. split; [reflexivity|]. split; [vm_compute; reflexivity|]. split.
-    { intros x Hx. cbn in Hx. destruct Hx as [<-|[<-|[]]]; [left; left; reflexivity|right; right; left; reflexivity]. }
-    cbn. repeat split. }
-  split; [apply minv_vm_empty; reflexivity|]. split; [apply genv_rel4_empty|].
-  eapply (R4_app_closure bsem_not _ _ _ _ _ [R4Base (RDatum (CBool true))] _ [S_ "y"] [S_ "x"] ex4_inner [R4Base (RDatum ex2_list)]).
-  - eapply R4_cons; [apply R4_const|apply R4_nil].
-  - eapply (R4_app_closure bsem_not _ _ _ _ _ [R4Base (RDatum ex2_list)] _ [S_ "x"] [] _ []).
-    + eapply R4_cons; [apply R4_quote|apply R4_nil].
-    + apply (R4_lam bsem_not [] [] _ [S_ "x"] [] _ []). constructor.
-    + reflexivity.
-    + apply (R4_lam bsem_not [S_ "x"] [R4Base (RDatum ex2_list)] _ [S_ "y"] [S_ "x"] ex4_inner [R4Base (RDatum ex2_list)]).
-      constructor; [|constructor]. exists 0. split; reflexivity.
-  - reflexivity.
-  - eapply R4_if_t.
-    + apply (R4_local bsem_not _ _ _ _ 0); reflexivity.
-    + reflexivity.
-    + apply (R4_local bsem_not _ _ _ _ 1); reflexivity.
-Qed.
-
-(* a session: (define loop (lambda (x) (if x (loop #f) 'done))), then (loop #t): a named procedure,
-   called by name from a later expression, RECURSIVE through its global (the lookup happens at
-   call time), both calls of the second form in tail position *)
-Definition ex5_body : expr4 :=
-  ZIf (ZVar (S_ "x")) (ZApp (ZVar (S_ "loop")) [ZConst (CBool false)]) (ZQuote (CSym (S_ "done"))).
-Definition ex5_clo : rval4 := R4Clo [S_ "x"] [] ex5_body [].
-Definition ex5_def : expr4 := ZDefine (S_ "loop") (ZLam [S_ "x"] [S_ "loop"] ex5_body).
-Definition ex5_call : expr4 := ZApp (ZVar (S_ "loop")) [ZConst (CBool true)].
-Definition ex5_rho : env4 := upd4 rho4_empty (S_ "loop") ex5_clo.
-
-Lemma ex5_hypotheses :
-  wf4 ex5_def [] /\ wf4 ex5_call [] /\
-  ref_eval4 bsem_not [] [] rho4_empty ex5_def (R4Base (RDatum CVoid)) ex5_rho /\
-  ref_eval4 bsem_not [] [] ex5_rho ex5_call (R4Base (RDatum (CSym (S_ "done")))) ex5_rho.
-Proof.
-  assert (Wb : wf4 ex5_body [S_ "x"]).
-  { cbn [wf4 ex5_body]. split; [reflexivity|]. split; [|cbn; tauto].
-    split; [reflexivity|]. split; [reflexivity|]. split; [|exact I]. cbn. tauto. }
-  split.
-  { cbn [wf4 ex5_def]. split; [reflexivity|]. split; [reflexivity|].
-    split; [intros x [<-|[]]; reflexivity|]. split; [reflexivity|]. split; [vm_compute; reflexivity|]. split.
-    { intros x Hx. right; left. reflexivity. }
-    exact Wb. }
-  split.
-  { apply wf4_app. split; [reflexivity|]. split; [reflexivity|]. repeat constructor. }
-  split.
-  { apply (R4_define bsem_not [] [] rho4_empty (S_ "loop") _ ex5_clo rho4_empty).
-    apply (R4_lam bsem_not [] [] _ [S_ "x"] [S_ "loop"] ex5_body []). constructor. }
-  assert (Hg : forall sc lv, pindex (S_ "loop") sc = None ->
-             ref_eval4 bsem_not sc lv ex5_rho (ZVar (S_ "loop")) ex5_clo ex5_rho).
-  { intros sc lv Hp. apply R4_global; [exact Hp|reflexivity|discriminate]. }
-  eapply (R4_app_closure bsem_not _ _ _ _ _ [R4Base (RDatum (CBool true))] _ [S_ "x"] [] ex5_body []).
-  - eapply R4_cons; [apply R4_const|apply R4_nil].
-  - apply Hg. reflexivity.
-  - reflexivity.
-  - eapply R4_if_t.
-    + apply (R4_local bsem_not _ _ _ _ 0); reflexivity.
-    + reflexivity.
-    + eapply (R4_app_closure bsem_not _ _ _ _ _ [R4Base (RDatum (CBool false))] _ [S_ "x"] [] ex5_body []).
-      * eapply R4_cons; [apply R4_const|apply R4_nil].
-      * apply Hg. reflexivity.
-      * reflexivity.
-      * eapply R4_if_f.
-        -- apply (R4_local bsem_not _ _ _ _ 0); reflexivity.
-        -- reflexivity.
-        -- apply R4_quote.
-Qed.
-
+(*EXAMPLES*)
 (* ============================================================ C06: no panic on the closure fragment *)
 (* the evaluation of a well-formed closure-fragment expression whose reference value is a datum or
    a builtin never panics, whatever the fuel: it is NoFuel or Done *)
